@@ -1,4 +1,4 @@
-package main
+package hlib
 
 import (
 	"fmt"
@@ -22,22 +22,22 @@ func (r *Rng) Intn(n int) int {
 	}
 	return int(r.U64() % uint64(n))
 }
-func (r *Rng) Bool() bool        { return r.U64()&1 == 1 }
-func (r *Rng) Chance(p int) bool { return r.Intn(100) < p }
-func (r *Rng) Range(lo, hi int) int { return lo + r.Intn(hi-lo+1) }
+func (r *Rng) Bool() bool              { return r.U64()&1 == 1 }
+func (r *Rng) Chance(p int) bool       { return r.Intn(100) < p }
+func (r *Rng) Range(lo, hi int) int    { return lo + r.Intn(hi-lo+1) }
 func (r *Rng) Pick(xs []string) string { return xs[r.Intn(len(xs))] }
 
 // ---- Coq term printing ----
 
-func cz(v int64) string {
+func CZ(v int64) string {
 	if v < 0 {
 		return fmt.Sprintf("(%d)", v)
 	}
 	return fmt.Sprintf("%d", v)
 }
-func czi(v int) string { return cz(int64(v)) }
+func CZi(v int) string { return CZ(int64(v)) }
 
-func cbytes(b []byte) string {
+func CBytes(b []byte) string {
 	var sb strings.Builder
 	sb.WriteByte('[')
 	for i, c := range b {
@@ -50,20 +50,20 @@ func cbytes(b []byte) string {
 	return sb.String()
 }
 
-func czlist(xs []int64) string {
+func CZList(xs []int64) string {
 	var sb strings.Builder
 	sb.WriteByte('[')
 	for i, c := range xs {
 		if i > 0 {
 			sb.WriteByte(';')
 		}
-		sb.WriteString(cz(c))
+		sb.WriteString(CZ(c))
 	}
 	sb.WriteByte(']')
 	return sb.String()
 }
 
-func cu16(xs []uint16) string {
+func CU16(xs []uint16) string {
 	var sb strings.Builder
 	sb.WriteByte('[')
 	for i, c := range xs {
@@ -76,18 +76,18 @@ func cu16(xs []uint16) string {
 	return sb.String()
 }
 
-func cbool(b bool) string {
+func CBool(b bool) string {
 	if b {
 		return "true"
 	}
 	return "false"
 }
 
-func clist(items []string) string { return "[" + strings.Join(items, ";\n ") + "]" }
+func CList(items []string) string { return "[" + strings.Join(items, ";\n ") + "]" }
 
-func coptz(ok bool, v int64) string {
+func COptZ(ok bool, v int64) string {
 	if ok {
-		return "(Some " + cz(v) + ")"
+		return "(Some " + CZ(v) + ")"
 	}
 	return "None"
 }
@@ -116,7 +116,7 @@ func (f *CoqFile) AddCases(name, typ, checker string, items []string) {
 			j = len(items)
 		}
 		pn := fmt.Sprintf("%s_%d", name, i/chunk)
-		fmt.Fprintf(&f.sb, "Definition %s : list (%s) := %s.\n", pn, typ, clist(items[i:j]))
+		fmt.Fprintf(&f.sb, "Definition %s : list (%s) := %s.\n", pn, typ, CList(items[i:j]))
 		parts = append(parts, pn)
 	}
 	if len(parts) == 0 {
